@@ -131,6 +131,11 @@ VARIANTS = [
     B("gateway-io-runtime-xspec", ["C15"], (IO, "    spec = cast(\"XSpec\", PseudoSpec(proxy_channelX.receive()))", "    spec = cast(XSpec, PseudoSpec(proxy_channelX.receive()))")),
     B("bootstrap-fragment-foreign-helper", ["C15"], (BO, "            \"io = init_popen_io(execmodel)\",", "            \"io = init_popen_io(execmodel); check_version(io)\",")),
     B("standalone-import-unconditional", ["C15"], (SS, "    try:\n        from execnet.gateway_base import get_execmodel\n    except ImportError:\n        # stand-alone usage without an execnet installation: the bootstrap\n        # source sent by the initiator creates the execmodel itself\n        execmodel = None\n    else:\n        execmodel = get_execmodel(\"thread\")", "    from execnet.gateway_base import get_execmodel\n\n    execmodel = get_execmodel(\"thread\")")),
+    B("execmodel-injected-as-none", ["C15"], (SS, '    g = {"clientsock": clientsock, "address": address}\n    if execmodel is not None:\n        g["execmodel"] = execmodel', '    g = {"clientsock": clientsock, "address": address, "execmodel": execmodel}')),
+    P("execmodel-injected-when-truthy", ["C15"], (SS, "    if execmodel is not None:\n        g[", "    if execmodel:\n        g[")),
+    B("setitem-error-formats-bare-key", ["C13"], (GB, 'raise LoadError("invalid list index %r" % (key,))', 'raise LoadError("invalid list index %r" % key)')),
+    P("setitem-error-fstring", ["C13"], (GB, 'raise LoadError("invalid list index %r" % (key,))', 'raise LoadError(f"invalid list index {key!r}")')),
+    B("shutdown-flag-sampled-before-lock", ["C09", "C11"], (GB, "            # we are concurrent with trigger_shutdown and spawn\n            with self._running_lock:", "            shuttingdown = self._shuttingdown\n            with self._running_lock:"), (GB, "                    if self._shuttingdown:\n                        break\n                    primary_thread_task_ready.clear()", "                    if shuttingdown:\n                        break\n                    primary_thread_task_ready.clear()")),
     B("ack-tag-renamed-remote-only", ["C17"], (RR, 'channel.send(("ack", path[len(destdir) + 1 :]))', 'channel.send(("acked", path[len(destdir) + 1 :]))')),
     B("stat-order-sender-only", ["C17"], (RS, "self._broadcast((st.st_mode, st.st_mtime, st.st_size))", "self._broadcast((st.st_mtime, st.st_mode, st.st_size))")),
     B("delete-guard-removed", ["C17"], (RR, '            if options.get("delete"):\n                for othername in os.listdir(path):', "            if True:\n                for othername in os.listdir(path):")),
